@@ -2,7 +2,7 @@
 //!
 //! Three exhaustive families (no sampling):
 //!  (1) DAMAGE SWEEP   every single token-level edit of every seed (corpus files + generated programs) and the full
-//!                     options grid on 15 representative programs, in-process through `driver::drive`;
+//!                     options grid on 18 representative programs, in-process through `driver::drive`;
 //!  (2) DRIVER+FAULTS  every driver corpus job and generated multi-file jobs, fault-free and with every single
 //!                     injected I/O fault (k-th get_handle / get_bytes / write_bytes for every k, each file
 //!                     permanently missing / unreadable), plus every output format on empty / 1-bit / normal outputs;
@@ -1328,7 +1328,7 @@ impl Space for SweepSpace {
 }
 
 // =================================================================================================
-// family 1b: options grid on 15 representative programs (through the driver)
+// family 1b: options grid on 18 representative programs (through the driver)
 
 fn grid_programs() -> Vec<(&'static str, String, Files)> {
     let none: Files = vec![];
@@ -1349,6 +1349,10 @@ fn grid_programs() -> Vec<(&'static str, String, Files)> {
         v("fail-assert", format!("{}val = 1\nld val\n#assert val == 77\n", RULES), &none),
         v("fail-bank-overflow", "#bankdef a { addr = 0, size = 1, outp = 0 }\nval = 1\n#d8 val, 2\n".to_string(), &none),
         v("fail-include-missing", format!("{}val = 1\n#include \"nope.asm\"\nld val\n", RULES), &none),
+        // an `asm` block with a substituted block local, used as an expression outside data and rules, whose instruction fails
+        v("fail-asm-in-constant", format!("{}val = 1\nk2 = {{ t = 0x123, asm {{ ld {{t}} }} }}\nld val\n", RULES), &none),
+        v("fail-asm-in-assert", format!("{}val = 1\nld val\n#assert {{ t = 0x123, asm {{ ld {{t}} }} }} == 0\n", RULES), &none),
+        v("fail-asm-in-res", format!("{}val = 1\nld val\n#res {{ t = 5, asm {{ mov {{t}} }} }}\n", RULES), &none),
         // the files of the cycle lie below the root file's directory: names are relative to the including file
         v("fail-include-cycle-in-subdirectory", format!("{}val = 1\n#include \"lib/a.asm\"\nld val\n", RULES), &vec![("lib/a.asm".to_string(), b"#include \"b.asm\"\nnop\n".to_vec()), ("lib/b.asm".to_string(), b"#include \"a.asm\"\nnop\n".to_vec())]),
     ]
@@ -1998,7 +2002,9 @@ fn run_process(bin: &str, dir: &str, job: &Job, ff: &FsFault, timeout_s: f64) ->
         }
     }
     let stderr = strip_ansi(&lossy(&std::fs::read(&se).unwrap_or_default()));
-    o.error_line = stderr.lines().any(|l| l.starts_with("error:"));
+    // an error diagnostic anywhere in the printed message tree: nested messages are indented and led by `+ `
+    // (an `asm` block evaluated outside data and rules reports `note: match attempted` with the error nested in it)
+    o.error_line = stderr.lines().any(|l| l.trim_start().trim_start_matches("+ ").starts_with("error:"));
     // drop the thread id that the panic message carries (it differs from run to run)
     let mut head = String::new();
     let mut rest = stderr.as_str();
@@ -2203,7 +2209,7 @@ pub fn run(ctx: &Ctx) -> Report {
     let mut rep = Report::new(
         "fault_enumeration",
         &format!(
-            "in-process (driver::drive + Report::print_all on a fault-injecting mock file server, run in worker sub-processes): identity and EVERY single token edit (delete / duplicate / swap-with-next / replace by and insert each of {} alphabet tokens, at every token boundary of my own lexer) of every seed = every .asm file under tests/ {} + 18 generated programs{}; options grid 15 programs x budgets {{1,2,10}} x 4 optimisation-switch combinations x 11 define variants (valid / unused / malformed) x --debug-iters; every tests/driver job + 21 generated multi-file jobs (1-3 output groups) fault-free and with EVERY single fault (k-th get_handle / get_bytes / write_bytes for every k, each file missing, each file unreadable); 34 format strings (27 valid, 7 with illegal parameter values) x 12 output shapes (empty, 1 bit, partial byte, banks, labels) x file/print. Real binary: one representative per (verdict, first message) class, the smallest example of every violation family, every driver/format job, every real-file-system fault (each input missing / a directory, each output path uncreatable: parent missing / a directory). Verdict per run: exactly one of success (Ok, no error diagnostic, every requested file written, exit 0) / failure (Err, >= 1 error, nothing written unless the failure is an unwritable output, exit != 0) and never a panic / signal / exit 101. No verdict: a k-th-call fault on a file that was already read in the same run (not a permanent fault); a run that gives no result within the time limit unless every numeric literal of its input has <= 5 digits. Non-trivial = damaged input whose observable result differs from its seed's (distinct by text), every grid case, every job, every fault that fired.",
+            "in-process (driver::drive + Report::print_all on a fault-injecting mock file server, run in worker sub-processes): identity and EVERY single token edit (delete / duplicate / swap-with-next / replace by and insert each of {} alphabet tokens, at every token boundary of my own lexer) of every seed = every .asm file under tests/ {} + 18 generated programs{}; options grid 18 programs x budgets {{1,2,10}} x 4 optimisation-switch combinations x 11 define variants (valid / unused / malformed) x --debug-iters; every tests/driver job + 21 generated multi-file jobs (1-3 output groups) fault-free and with EVERY single fault (k-th get_handle / get_bytes / write_bytes for every k, each file missing, each file unreadable); 34 format strings (27 valid, 7 with illegal parameter values) x 12 output shapes (empty, 1 bit, partial byte, banks, labels) x file/print. Real binary: one representative per (verdict, first message) class, the smallest example of every violation family, every driver/format job, every real-file-system fault (each input missing / a directory, each output path uncreatable: parent missing / a directory). Verdict per run: exactly one of success (Ok, no error diagnostic, every requested file written, exit 0) / failure (Err, >= 1 error, nothing written unless the failure is an unwritable output, exit != 0) and never a panic / signal / exit 101. No verdict: a k-th-call fault on a file that was already read in the same run (not a permanent fault); a run that gives no result within the time limit unless every numeric literal of its input has <= 5 digits. Non-trivial = damaged input whose observable result differs from its seed's (distinct by text), every grid case, every job, every fault that fired.",
             if ctx.thorough { 48 } else { 16 },
             if ctx.thorough { "(all of them)".to_string() } else { format!("with at most {} tokens (whitespace, line breaks and comments count as tokens)", limit) },
             if ctx.thorough { format!("; ALL double edits (12-token alphabet) of the seeds with at most {} tokens", DOUBLE_TOKEN_LIMIT) } else { String::new() }
